@@ -1428,7 +1428,45 @@ func (x *Extractor) LocalRoots(fi *core.FuncInfo) (outs, ins []types.Object) {
 		}
 		return true
 	})
+	if len(outs) == 0 && len(ins) == 0 {
+		// a writer that lays its bytes out with encoding/binary into the buffer it returns
+		if br := x.ByteRoot(fi); br != nil && x.assemblesWithBinary(fi, br) {
+			outs = append(outs, br)
+		}
+	}
 	return
+}
+
+// assemblesWithBinary: the function writes its root buffer through binary.BigEndian Put…/Append…
+// (at least once), and every such call targets the root itself (or a constant-offset slice of it).
+func (x *Extractor) assemblesWithBinary(fi *core.FuncInfo, root types.Object) bool {
+	info := fi.Pkg.TypesInfo
+	uses, foreign := 0, 0
+	ast.Inspect(fi.Decl.Body, func(n ast.Node) bool {
+		call, ok := n.(*ast.CallExpr)
+		if !ok || len(call.Args) < 2 {
+			return true
+		}
+		sel, ok := call.Fun.(*ast.SelectorExpr)
+		if !ok || !(strings.HasPrefix(sel.Sel.Name, "Put") || strings.HasPrefix(sel.Sel.Name, "Append")) {
+			return true
+		}
+		inner, ok := ast.Unparen(sel.X).(*ast.SelectorExpr)
+		if !ok || inner.Sel.Name != "BigEndian" {
+			return true
+		}
+		dst := ast.Unparen(call.Args[0])
+		if sl, ok := dst.(*ast.SliceExpr); ok {
+			dst = ast.Unparen(sl.X)
+		}
+		if id, ok := dst.(*ast.Ident); ok && info.ObjectOf(id) == root {
+			uses++
+		} else {
+			foreign++
+		}
+		return true
+	})
+	return uses > 0 && foreign == 0
 }
 
 // RootSource: for a local root reader `in := io.NewDataInputX(src)`, the src expression.
